@@ -697,3 +697,21 @@ Lemma run :
   [(1, false, false, 0%nat, Some (2, Some 6), None); (2, false, true, 1%nat, None, Some (3, Some 5)); (0, true, false, 0%nat, Some (1, None), None)].
 Proof. split; [reflexivity|]. vm_compute. repeat split. Qed.
 End Demo.
+
+(* ================= the boolean form used on observations ================= *)
+From V Require Import Model.C17_ClusterCheck.
+
+Lemma remove_order_after_rm caller target es : remove_order_ok caller target true es = true -> es = [].
+Proof. destruct es as [|e r]; auto. destruct e; simpl; discriminate. Qed.
+
+Lemma remove_order_ok_sound caller target es : remove_order_ok caller target false es = true ->
+  exists cs rm, es = map (fun c => TPin c caller) cs ++ rm /\ (rm = [] \/ rm = [TRm target]).
+Proof.
+  induction es as [|e r IH]; simpl.
+  - intros _. exists [], []. auto.
+  - destruct e as [c b|c b|p|p]; try discriminate.
+    + intros H. apply andb_prop in H. destruct H as [H1 H2]. simpl in H1. apply N.eqb_eq in H1. subst b.
+      destruct (IH H2) as [cs [rm [E R]]]. exists (c :: cs), rm. split; auto. simpl. now rewrite E.
+    + intros H. apply andb_prop in H. destruct H as [H1 H2]. simpl in H1. apply N.eqb_eq in H1. subst p.
+      apply remove_order_after_rm in H2. subst r. exists [], [TRm target]. auto.
+Qed.
